@@ -110,4 +110,23 @@ PROPS = {
                         "delivers exactly the prescribed segments. Connection FATE (not output/events) after plaintext stuffed behind an "
                         "accepted SSLRequest is segmentation dependent and excluded (see C11, DESIGN §7).",
              technique="Lean 4 proof (induction over reads / message lists / accessor lists) + differential correspondence"),
+    "C08": P("Pw.Props.C08",
+             ["Pw.Props.C08.C08_roundtrip", "Pw.Props.C08.C08_formats_admissible", "Pw.Props.C08.C08_result_rule",
+              "Pw.Props.C08.C08_announced_is_used", "Pw.Props.C08.C08_paramdesc", "Pw.Props.C08.readValues_enc",
+              "Pw.Props.C08.formatRule"],
+             [("bind", 3000, 200000)], ["Accessors", "Consts"],
+             design_ref="§7 C08",
+             level_text="Lean theorems for EVERY admissible Bind (any count < 2^16, any values incl. empty, NUL-containing and NULL, any "
+                        "format codes): the model of readParameters/readColumnTypes returns exactly the parameters sent - count, order, "
+                        "bytes, NULL vs empty - each tagged by the protocol rule (0 codes: text, 1: all, n: positional), returns the "
+                        "result codes as sent and leaves surplus bytes untouched (C08_roundtrip, induction on the parameter list); the "
+                        "result-format rule used for RowDescription and DataRow is one function equal to the protocol rule "
+                        "(C08_result_rule, C08_announced_is_used); ParameterDescription round-trips the declared OIDs. Tie: differential "
+                        "campaign Parse/Describe/Bind/Describe/Execute; the oracle compares what the real statement function received, "
+                        "what Describe announced and how the DataRow was encoded with expectations the generator derives from how it built "
+                        "the message (independent of library and model), incl. decoding through Parameter.Scan.",
+             level_note="Trusted: Lean kernel; pgx codecs behind Parameter.Scan are modelled for int4/text only in the oracle; row.go holds "
+                        "two textual copies of the format rule (Define/Write) which the model represents by one function - their agreement "
+                        "in the code is checked by the campaign, not proved.",
+             technique="Lean 4 proof (encode/decode round trip by induction) + differential correspondence with expectation oracle"),
 }
